@@ -803,10 +803,13 @@ func (s *Server) readPQClientRequestHidden(hs *HandshakeState, b []byte) (int, e
 		rawLeaf, rawIntermediate, remoteEphemeralBytes []byte
 		c                                              *Certificate
 	)
-	bufCopy := make([]byte, len(b))
+	scratch := make([]byte, len(b))
+	var bufCopy []byte
 
 	for _, cert := range certList {
-		// Copy buffer for processing
+		// Copy buffer for processing. Every certificate starts from the whole
+		// message again: bufCopy is consumed while parsing.
+		bufCopy = scratch
 		copy(bufCopy, b)
 
 		// Recreate duplex at each VM loop
